@@ -106,6 +106,15 @@ func shapeKey(c Config) string {
 	if c.DrainTO != "" {
 		k += " drain-timeout=" + c.DrainTO
 	}
+	if c.Busy > 0 && c.Busy < c.NSubj {
+		k += fmt.Sprintf(" idle-subjects=%d", c.NSubj-c.Busy)
+	}
+	if c.HWM != "" {
+		k += " high-watermark=" + c.HWM
+	}
+	if c.PureRecv {
+		k += " builder-received-handler"
+	}
 	return k
 }
 
@@ -129,7 +138,9 @@ var (
 // the hand-over into a bounded queue; see the probe VERIF_C20_SOLE_WORKER.)
 func workerStopConfig(rng *rand.Rand, w, q int, from, dur string, share bool, rep int) Config {
 	c := fill(rng, Config{W: w, Q: q, BClass: bClasses[rng.Intn(len(bClasses))], Dur: dur, Share: share, Rep: rep})
-	c.NSubj = 1 // one subscription: the position of S in the callback order is its position in the stream
+	c.NSubj = 1 + rng.Intn(3) // one subscription with traffic: the position of S in the callback order is its position in the stream
+	c.Busy = 1
+	c.PureRecv = false // S is identified in the request-received handler
 	c.StopFrom = from
 	c.K = pickK(rng, c)
 	c.K1 = rng.Intn(c.K + 1)
@@ -169,10 +180,10 @@ func earlyConfig(rng *rand.Rand, w, q int, mode string, share bool, rep int) Con
 func fill(rng *rand.Rand, c Config) Config {
 	c.B = burstOf(c.BClass, c.W, c.Q)
 	c.Rest = []string{"concurrent", "after", "split"}[rng.Intn(3)]
-	c.NSubj = 1
-	if rng.Intn(3) == 0 {
-		c.NSubj = 2
-	}
+	c.NSubj = []int{1, 1, 1, 1, 2, 2, 3, 4}[rng.Intn(8)]
+	c.Busy = 1 + rng.Intn(c.NSubj) // traffic on the first Busy subjects, the others stay idle
+	c.HWM = []string{"", "", "1ms", "10ms", "50ms"}[rng.Intn(5)]
+	c.PureRecv = rng.Intn(4) == 0
 	c.Oneway = rng.Intn(3) == 0
 	c.Arrival = []string{"burst", "burst", "chunks", "trickle"}[rng.Intn(4)]
 	if c.B > 200 && c.Arrival == "trickle" {
@@ -273,6 +284,25 @@ func buildSweep(run *ev.Run) []Config {
 			}
 			add(c)
 		}
+		// 16 configs: every w x q once with idle subjects next to busy ones,
+		// queue full and exactly as many requests parked in the NATS client as
+		// there are idle subjects
+		n = 0
+		for _, w := range sweepW {
+			for _, q := range sweepQ {
+				nsubj := 2 + n%3
+				idle := 1 + rng.Intn(nsubj-1)
+				if n%2 == 0 {
+					nsubj, idle = 2, 1
+				}
+				add(idleSubjConfig(rng, w, q, nsubj, idle, []string{"gate", "gate", "gate", "20ms"}[n%4], n%5 == 0, 0))
+				n++
+			}
+		}
+		// 8 configs: queue wait beyond a small high watermark
+		for i := 0; i < 8; i++ {
+			add(watermarkConfig(rng, []int{1, 2}[i%2], []int{2, 8, 8, 64}[i%4], []string{"1ms", "10ms", "50ms", "1ms"}[i%4], []string{"5ms", "5ms", "20ms", "1ms"}[i%4], i >= 6, 0))
+		}
 		out = append(out, soleWorkerProbe(rng, len(out))...)
 		return out
 	}
@@ -358,8 +388,59 @@ func buildSweep(run *ev.Run) []Config {
 			}
 		}
 	}
+	// idle subjects next to busy ones, full queue at Stop
+	for rep := 0; rep < 3; rep++ {
+		for _, w := range sweepW {
+			for _, q := range sweepQ {
+				for nsubj := 2; nsubj <= 4; nsubj++ {
+					for idle := 1; idle < nsubj; idle++ {
+						add(idleSubjConfig(rng, w, q, nsubj, idle, []string{"gate", "gate", "20ms"}[rep], rep == 1, rep))
+					}
+				}
+			}
+		}
+	}
+	// queue wait beyond a small high watermark
+	for _, w := range sweepW {
+		for _, q := range sweepQ {
+			for _, h := range []string{"1ms", "10ms", "50ms"} {
+				for _, d := range []string{"1ms", "5ms", "20ms"} {
+					if q == 64 && d == "20ms" {
+						continue
+					}
+					add(watermarkConfig(rng, w, q, h, d, rng.Intn(3) == 0, 0))
+				}
+			}
+		}
+	}
 	out = append(out, soleWorkerProbe(rng, len(out))...)
 	return out
+}
+
+// idleSubjConfig: a server on 2..4 subjects of which `idle` get no traffic;
+// Stop finds all workers busy, the queue full and exactly `idle` further
+// requests inside the NATS client (parked in / queued behind the callback):
+// K = w + q + idle, all received before Stop, handlers parked on the gate (or
+// slow) until well after Stop was called.
+func idleSubjConfig(rng *rand.Rand, w, q, nsubj, idle int, dur string, share bool, rep int) Config {
+	c := fill(rng, Config{W: w, Q: q, BClass: "q+w+idle", Dur: dur, Share: share, Rep: rep})
+	c.NSubj, c.Busy = nsubj, nsubj-idle
+	c.B = w + q + idle
+	c.K = c.B
+	c.Arrival = "burst"
+	c.GateUs = []int{5000, 20000}[rng.Intn(2)]
+	c.DrainTO = ""
+	return c
+}
+
+// watermarkConfig: the queue wait (queue length x handler duration / workers)
+// exceeds a small WithHighWatermark, with the library's default
+// request-received handler in effect.
+func watermarkConfig(rng *rand.Rand, w, q int, hwm, dur string, pure bool, rep int) Config {
+	c := fill(rng, Config{W: w, Q: q, BClass: "2(q+w)", Dur: dur, Share: rng.Intn(2) == 0, Rep: rep})
+	c.K = c.B
+	c.HWM, c.PureRecv = hwm, pure
+	return c
 }
 
 // soleWorkerProbe (only with VERIF_C20_SOLE_WORKER=1, never part of the
@@ -372,7 +453,7 @@ func soleWorkerProbe(rng *rand.Rand, idx int) []Config {
 	var out []Config
 	for i, from := range stopFromModes {
 		c := fill(rng, Config{W: 1, Q: 1 + i, BClass: "2(q+w)", Dur: "1ms"})
-		c.NSubj, c.StopFrom, c.Rest, c.DrainTO = 1, from, "after", ""
+		c.NSubj, c.Busy, c.PureRecv, c.StopFrom, c.Rest, c.DrainTO = 1, 1, false, from, "after", ""
 		c.K, c.K1 = c.B, 0
 		c.SoleProbe = true
 		c.Idx = idx + i
@@ -560,7 +641,7 @@ var panicNorm = regexp.MustCompile(`0x[0-9a-fA-F]+|\d+`)
 
 func runC20(tier string, args []string) int {
 	run := ev.New("C20", tier, "exploration")
-	run.Rule("configuration sweep workers {1,2,4,8} x queue {1,2,8,64} x burst {1,q,q+w,q+w+1,2(q+w),10(q+w)} x handler {0,1ms,5ms,PRNG 0-3ms,gate released after Stop is called} x position of Stop (incl. position 0 issued right after `go Serve()` without waiting for the subscription, with no / Gosched / 1-200us yields so that Stop is called both before and after Serve is parked; otherwise k of b double-flushed into the server's NATS client first; the rest published concurrently with Stop and/or after it returned; one extra request after Stop returned in every scenario) x caller of Stop (harness goroutine, or a worker goroutine: the processor / started / finished event handler of a shutdown request placed inside the double-flushed stream, wherever the drain can finish without that worker) x server connection option DrainTimeout {default, bare Options literal = 0, 1ms, 50ms} incl. backlogs that outlast it x server connection shared with an unrelated subscription or not x 1-2 subjects x arrival pattern; every scenario runs a real FNatsServer against an embedded nats-server in a child process; distinct = (w, q, burst class, handler mode, stop-position class, rest mode, sharing, subjects)")
+	run.Rule("configuration sweep workers {1,2,4,8} x queue {1,2,8,64} x burst {1,q,q+w,q+w+1,2(q+w),10(q+w)} x handler {0,1ms,5ms,PRNG 0-3ms,gate released after Stop is called} x position of Stop (incl. position 0 issued right after `go Serve()` without waiting for the subscription, with no / Gosched / 1-200us yields so that Stop is called both before and after Serve is parked; otherwise k of b double-flushed into the server's NATS client first; the rest published concurrently with Stop and/or after it returned; one extra request after Stop returned in every scenario) x caller of Stop (harness goroutine, or a worker goroutine: the processor / started / finished event handler of a shutdown request placed inside the double-flushed stream, wherever the drain can finish without that worker) x subjects 1-4 with traffic on a subset (idle subscriptions next to busy ones, incl. full queue with exactly as many requests parked in the NATS client as there are idle subjects) x WithHighWatermark {default, 1ms, 10ms, 50ms} incl. queue waits beyond it, the library's default request-received handler always in effect (wrapped by the counter, or left to the builder) x server connection option DrainTimeout {default, bare Options literal = 0, 1ms, 50ms} incl. backlogs that outlast it x server connection shared with an unrelated subscription or not x 1-2 subjects x arrival pattern; every scenario runs a real FNatsServer against an embedded nats-server in a child process; distinct = (w, q, burst class, handler mode, stop-position class, rest mode, sharing, subjects)")
 	run.Assume("embedded nats-server v2 routes a PUB to the subscribers' outbound queues before it answers the publisher's PING, and a connection's PONG follows the MSGs queued before it (the double flush defines 'received before Stop', as the pinned TestShutdown does on one connection)")
 	run.Assume("nats.go SubscribeSync/Pending/NextMsg on the collector connection and Flush are correct (reply collector)")
 	run.Assume("the recording processor is the only FProcessor; handler durations are finite (the gate is opened after Stop is called, never after it returns)")
@@ -779,6 +860,22 @@ func runC20(tier string, args []string) int {
 			if r.AtStop.Received-r.AtStop.Started > 0 {
 				run.Add("scenarios_stop_from_worker_with_requests_queued", 1)
 			}
+		}
+		if r.Config.Busy > 0 && r.Config.Busy < r.Config.NSubj {
+			run.Add("scenarios_with_idle_subjects", 1)
+			// queue full at Stop and (received before Stop) - (started) - (queued) = number of idle subjects
+			if !r.Config.PureRecv && r.QueueFull && r.Pre-int(r.AtStop.Started)-r.Config.Q == r.Config.NSubj-r.Config.Busy {
+				run.Add("scenarios_idle_subjects_eq_requests_inside_nats_client_at_stop", 1)
+			}
+		}
+		if r.Config.HWM != "" {
+			run.Add("scenarios_high_watermark_"+r.Config.HWM, 1)
+			if d, err := time.ParseDuration(r.Config.HWM); err == nil && r.StopMs+r.ServeMs > float64(d.Microseconds())/1000 {
+				run.Add("scenarios_drain_took_longer_than_high_watermark", 1)
+			}
+		}
+		if r.Config.PureRecv {
+			run.Add("scenarios_builder_default_received_handler", 1)
 		}
 		if r.Config.DrainTO != "" {
 			run.Add("scenarios_server_conn_drain_timeout_"+r.Config.DrainTO, 1)
